@@ -205,8 +205,8 @@ def add_chain_suffix_ORIGINAL(
                 (traced_df[store_idx1] == temp_cl_id) & (traced_df[store_idx2] > order_id),
                 store_idx1,
             ] = current_class
-            new_chain_size = traced_df.loc[(traced_df[store_idx1] == current_class), store_idx2].shape[0]
-            traced_df.loc[(traced_df[store_idx1] == current_class), store_idx2] = np.arange(1, new_chain_size + 1)
+            # the tail keeps its order: the order numbers order_id + 1, order_id + 2, ... become 1, 2, ...
+            traced_df.loc[(traced_df[store_idx1] == current_class), store_idx2] -= order_id
             chain_max_order = np.max(
                 traced_df.loc[traced_df[store_idx1] == temp_cl_id, [store_idx2]].values
             )  # max changed in the meantime so has to be fetched again
